@@ -315,6 +315,14 @@ class Cloner:
             opset_imports=graph.opset_imports.copy(),
             name=graph.name,
         )
+        # The new graph gave names to everything that was unnamed. A clone carries the
+        # names of the original, including the missing ones.
+        for node, new_node in zip(graph, nodes):
+            if node.name is None:
+                new_node.name = None
+            for output, new_output in zip(node.outputs, new_node.outputs):
+                if output.name is None:
+                    new_output.name = None
         if graph.metadata_props:
             new_graph.metadata_props.update(graph.metadata_props)
         if graph.meta:
